@@ -78,7 +78,7 @@ func (c *c09Ctl) Error(string) {}
 type c09DQ struct{ log *c09Log }
 
 func (d *c09DQ) Start(pipeline.AnyConfig, *pipeline.OutputPluginParams) {}
-func (d *c09DQ) Stop()                                                   {}
+func (d *c09DQ) Stop()                                                  {}
 func (d *c09DQ) Out(e *pipeline.Event) {
 	d.log.add(c09Entry{T: "dq", ID: int(e.SeqID)})
 	d.log.done <- struct{}{}
@@ -121,6 +121,9 @@ func (b *c09Backend) ServeHTTP(w http.ResponseWriter, req *http.Request) {
 	case "transport":
 		if hj, ok := w.(http.Hijacker); ok {
 			if conn, _, err := hj.Hijack(); err == nil {
+				// a response that breaks off in the middle: a transport error the http client does not resend by
+				// itself (a connection closed before the first byte would be resent transparently, up to 5 times)
+				_, _ = conn.Write([]byte("HTTP/1.1 200 OK\r\nContent-Type: application/json\r\nContent-Length: 64\r\n\r\n{\"took\":"))
 				_ = conn.Close()
 				return
 			}
